@@ -82,7 +82,7 @@ def gen_direct(sch, rng, i):
         body = schema.show(sch["MalformedMessage"], m)
         d.lines.append("B mmitem b _ R[ %s %s" % (time() if rng.random() < 0.7 else "_", body[len("R[ _ "):]))
     for _ in range(rng.choice([0, 1, 3])):
-        d.lines.append("B aecitem b _ R[ N%d %s N%d %s ]" % (rng.choice([0, 1, 5]), rng.choice(["_", "N3"]), ip(), rng.choice(["_", "N2"])))
+        d.lines.append("B aecitem b _ R[ N%d %s N%d %s N%d ]" % (rng.choice([0, 1, 5]), rng.choice(["_", "N3"]), ip(), rng.choice(["_", "N2"]), rng.choice([0, 0, 7])))
     script = ["B new b " + schema.show(sch["BlockParameters"], bp)] + d.lines + ["B dump b", "X new " + schema.show(sch["FilePreamble"], pre), "X wbx b", "X end", "F out 0"]
     return {"id": "direct%d" % i, "script": script, "expect": None, "pre": pre, "meta": {"kind": "direct-block/" + kind}}
 
